@@ -380,7 +380,7 @@ pub fn check_program(db: &Db, prog: &Program, insts: &[Inst]) -> Outcome {
         if arity_differs {
             let mut keep: Vec<usize> = vec![];
             for (k, c) in final_frame.cols.iter().enumerate() {
-                let repeat = c.name.is_some() && keep.iter().any(|&j| final_frame.cols[j].name == c.name);
+                let repeat = c.name.is_some() && keep.iter().any(|&j| final_frame.cols[j].name == c.name && final_frame.cols[j].input == c.input);
                 if !repeat {
                     keep.push(k);
                 }
